@@ -232,3 +232,35 @@ Proof.
                <= 16 * eps * csize a b c d (x0 * rho)%C) by (apply Rmult_le_compat_l; [lra|exact L]).
   lra.
 Qed.
+
+(* ---------------------------------------------------------------- non-vacuity *)
+(* in the perturbing arithmetic [pert_ops e] of Proofs/RootsRoundEx.v (every rounded operation = exact result times f = 1 + e),
+   the cubic  x^3 - 3 x^2 + (3 / f) x + (2 f - 3)  -- close to (x - 1)^3, all coefficients non-zero, NOT a perfect cube --
+   has computed d0 = d1 = 0: the triple-root branch is taken, r = 1 is returned, and the residual there is not zero *)
+From OV Require Import Proofs.RootsRoundEx.
+
+Lemma cubic_triple_branch_nonvacuous_lemma :
+  let e := / 1024 in let f := 1 + e in
+  let a := RtoC 1 in let b := RtoC (-3) in let c := RtoC (3 / f) in let d := RtoC (2 * f - 3) in
+  0 <= e <= / 100 /\ std_model e (pert_ops e) /\ a <> C0 /\
+  c_d0 (pert_ops e) a b c = C0 /\ c_d1 (pert_ops e) a b c d = C0 /\
+  c_r (pert_ops e) a b = RtoC 1 /\ cval a b c d (RtoC 1) <> C0.
+Proof.
+  intros e f a b c d.
+  assert (He : 0 <= e <= / 100) by (unfold e; lra).
+  assert (Pf : 0 < f) by (unfold f, e; lra).
+  split; [exact He|]. split; [apply pert_std_model; lra|].
+  split; [intros H; apply RtoC_inj in H; lra|].
+  split; [|split; [|split]].
+  - unfold c_d0, a, b, c. cbn [o_sub o_mul o_scale pert_ops]. fold f.
+    unfold RtoC, Cmult, Cminus, Cplus, Copp. cbn [fst snd INR]. f_equal; field; lra.
+  - unfold c_d1, a, b, c, d. cbn [o_add o_sub o_mul o_scale pert_ops]. fold f. rewrite INR_27, INR_9.
+    repeat (rewrite <- RtoC_mult || rewrite <- RtoC_minus || rewrite <- RtoC_plus).
+    f_equal. cbn [INR]. field. lra.
+  - unfold c_r, a, b. cbn [o_div o_scale pert_ops]. fold f.
+    rewrite <- RtoC_opp, <- !RtoC_mult. rewrite <- RtoC_div by (cbn [INR]; nra). rewrite <- RtoC_mult.
+    f_equal. cbn [INR]. field. lra.
+  - unfold cval, a, b, c, d. rewrite <- !RtoC_mult, <- !RtoC_plus. intros H. apply RtoC_inj in H.
+    assert (K : (1 * 1 * 1 * 1 + -3 * 1 * 1 + 3 / f * 1 + (2 * f - 3)) * f = (2 * f - 3) * (f - 1)) by (field; lra).
+    rewrite H in K. unfold f, e in K. lra.
+Qed.
